@@ -20,7 +20,7 @@ RULE = ("schemas of depth <= 4 and width <= 6 with identifier keys whose option 
         "and mutated states: the state afterwards must equal 'supplied and not ignored options set to their normal "
         "form and marked user-defined, every other value and flag untouched'; non-trivial = >= 4 paths and >= 1 "
         "command line applied; distinct = distinct (schema, state, command line)")
-REQUIRED = ("parser_from_schema_method", "sections_nested_in_a_section_of_the_same_name", "mode_helper_replaces_an_earlier_field", "rejected_command_lines_applied_again", "schemas_with_names_of_schema_methods_or_odd_underscores", "schema_grown_after_enumeration", "paths_checked", "dotted_assignments_checked", "parsers_compared", "overrides_compared", "argv:empty",
+REQUIRED = ("parsed_arguments_reused_with_another_ignore_list", "parser_from_schema_method", "sections_nested_in_a_section_of_the_same_name", "mode_helper_replaces_an_earlier_field", "rejected_command_lines_applied_again", "schemas_with_names_of_schema_methods_or_odd_underscores", "schema_grown_after_enumeration", "paths_checked", "dotted_assignments_checked", "parsers_compared", "overrides_compared", "argv:empty",
             "argv:bool-on", "argv:bool-off", "argv:bool-both-switches", "argv:value", "argv:repeated", "argv:invalid", "ignore:str", "ignore:list",
             "state:mutated", "depth>=3")
 ASSUMPTIONS = ["enumeration is judged on root schemas / configurations; membership is demanded of stored fields only",
@@ -42,7 +42,9 @@ def generate(rng, ctx):
         schema = gen.gen_schema(rng, depth=depth, width=rng.choice([3, 4, 6]), defaults=0.5, lists_of_cfg=True, dynamic=0.0)
         if rng.random() < 0.4:
             extra = gen.pick_keys(rng, 2, avoid={ch["key"] for ch in schema["fields"]})
-            schema["fields"].append({"kind": "field", "key": extra[0], "family": "virtual", "params": {"returns": "v"}})
+            schema["fields"].append({"kind": "field", "key": extra[0], "family": "virtual",
+                                     # (a computed field is no option of the parser, whatever its getter is annotated with)
+                                     "params": {"returns": "v", "ret_annotation": rng.choice([None, "int", "str", "bool", "float", "'str'"])}})
             schema["fields"].append({"kind": "field", "key": extra[1], "family": "method", "params": {"source": "def f(cfg):\n    return 1\n"}})
         if not any(ch["kind"] == "field" and ch["family"] in BOOL for ch in schema["fields"]):
             keys = gen.pick_keys(rng, 1, avoid={ch["key"] for ch in schema["fields"]})
@@ -421,6 +423,24 @@ def run(case, ctx, res):
         if fd:
             res.viol("M-override", feat + ":flags", "command line %r (ignore %r) changed the user-defined status of %r" % (argv, ign, fd[:5]))
             return
+        if ign_list and not invalid and not unknown and all(
+                model.accepts(spec.node_at(root, p), v, env)[0] is True for p, v in supplied.items()):
+            # the SAME parsed arguments applied again, this time ignoring nothing: everything the user supplied arrives
+            third = cc.Config(drv.built.schema, key_filename=drv.keyfile)
+            try:
+                cc.cmdline_args_override(third, args)
+            except Exception as exc:
+                res.viol("M-override", "reuse-of-parsed-arguments:raises", "applying the parsed arguments of %r a second time (nothing "
+                         "ignored) raised %r" % (argv, exc))
+                return
+            res.count("parsed_arguments_reused_with_another_ignore_list")
+            for p, v in supplied.items():
+                nd = spec.node_at(root, p)
+                ok, norm = model.accepts(nd, v, env)
+                if ok is True and model.match(norm, plain(third[p])):
+                    res.viol("M-override", "reuse-of-parsed-arguments", "command line %r: applied once ignoring %r, then again to another "
+                             "configuration ignoring nothing: %s was supplied as %r but reads %r" % (argv, ign, p, v, plain(third[p])))
+                    return
     if len(listed) >= 4 and applied:
         res.nontrivial(case["schema"], case["state_ops"], case["cmdlines"])
 
